@@ -191,7 +191,7 @@ func c16Specs(tier string) ([]*Spec, error) {
 			cfg := Cfg{Fast: fast}
 			a := Alpha{Writes: true, Save: true, DelTo: true, LVFO: true, Reopen: []reopenVar{{0, fast, 0}}, MaxVersions: base.Latest + 3}
 			s := &Spec{Weight: 1, ID: "C16", Name: fmt.Sprintf("%dv/fast=%v/legacy#%d", len(f.Versions), fast, f.ID), Cfg: cfg, Keys: keys, Vals: bs("z"), MaxDepth: depth, MaxMaint: 3,
-				Alphabet: a.Ops, Oracles: []Oracle{oracleLegacyOpen(f), oracleReads(probes), oracleHashes(), oracleVersionsLive([]byte("a")), oracleFresh(oracleReads(probes), oracleHashes())}, Workers: 0}
+				Alphabet: a.Ops, Oracles: []Oracle{oracleLegacyOpen(f), oracleReads(probes), oracleHashes(), oracleProofsLight(probes), oracleVersionsLive([]byte("a")), oracleFresh(oracleReads(probes), oracleHashes())}, Workers: 0}
 			s.Init = c16Init(f, base, kvs)
 			s.BaseModel = base
 			s.Label = f.String()
